@@ -112,6 +112,13 @@ def create_machine(
     # -------------------------------------------------------------------------
     # ☝️ Step 1: Determine the Source of Business Logic
     # -------------------------------------------------------------------------
+    # 🛡️ The config must be a mapping before anything reads it.
+    if not isinstance(config, dict):
+        raise InvalidConfigError(
+            "Machine configuration must be a dict (JSON object), got "
+            f"'{type(config).__name__}'."
+        )
+
     final_logic: MachineLogic
     if logic:
         # ✅ Path 1: Use the explicitly provided logic instance.
